@@ -341,6 +341,44 @@ def run_shard(spec, tier, seed):
                 for t, v in _safe_pairs(pdfdrive, c):
                     if t.endswith('f1_06[0]') and v and v != '1234567890123':
                         res.violation(f'C19|{year}|overlong-truncated', f'SSN box was written as {v!r}', rp)
+        # too long by no more than its blanks and dashes ("Apt 12" for a 5-character box, "Van der Berg" for 10): still too long -
+        # the text is not squeezed to fit.  Through the real fill of an N.C. return, and on every text mapping that carries a limit
+        F_ = hx.fields
+        PF = hx.pdf_fields
+        for cls in hx.catalogue(year):
+            for inst in hx.instances_for(cls)[:1]:
+                try:
+                    fo = cls(instance=inst) if inst else cls()
+                except BaseException:  # noqa
+                    continue
+                flds = {f.base_name(): f for f in fo.fields()}
+                for pf in (fo.pdf_fields() or []):
+                    ml = getattr(pf, 'max_length', None)
+                    fld = flds.get(getattr(pf, 'field_name', None))
+                    if not isinstance(pf, PF.TextPDFField) or not ml or ml < 3 or not isinstance(fld, F_.StringField):
+                        continue
+                    for sep in (' ', '-', ' - '):
+                        txt = 'a' * (ml - 2) + sep + 'bc'
+                        res.evaluations += 1
+                        res.count('overlong_by_separators_probes')
+                        try:
+                            got_ = pf.value(txt, fld)
+                        except PF.PDFValueTooLong:
+                            continue
+                        except BaseException:  # noqa
+                            continue
+                        res.violation(f'C19|{year}|overlong-squeezed|{cls.form_name}', f'{cls.form_name} line {pf.field_name} -> {pf.pdf_field_name} (limit {ml}): the {len(txt)}-character text {txt!r} is written as {got_!r} instead of stopping the fill',
+                                      {'engine': 'fault', 'what': 'overlong by separators', 'form': cls.form_name, 'line': pf.field_name, 'text': txt, 'shard': spec})
+                        break
+        qn = scen.plain_persona(year, 'S', 52000.0, key=f'fltnc:{seed}', nc=True, overrides={'1040.apartment_no': 'Apt 12'})
+        on_ = scen.solve_persona(qn)
+        if on_.exc is None and on_.ret is True:
+            rn = pdfdrive.fill(solution_as_cli(on_, year), year)
+            res.evaluations += 1
+            res.count('overlong_cases')
+            if not isinstance(rn.exc, PF.PDFValueTooLong):
+                res.violation(f'C19|{year}|overlong-not-rejected|apartment', f'apartment "Apt 12" for the 5-character box of the N.C. D-400: fill ended with {type(rn.exc).__name__ if rn.exc else "success"}',
+                              {'engine': 'fault', 'what': 'apartment "Apt 12" on an N.C. return', 'persona': qn.describe(), 'shard': spec})
         for failop in ('fill_form', 'cat'):
             r = pdfdrive.fill(cp, year, fail=failop)
             res.evaluations += 1
